@@ -60,6 +60,405 @@ def expand(sym, t, depth=3):
     return [t]
 
 
+# ---------------------------------------------------------------------------------------------
+# Values, however they are spelt: the alternatives a term can denote, read through multiply-assigned locals, literal
+# Option / tuple wrappers, std's Option / Iterator combinators (by their documented contract: which closure result or
+# which element comes out) and private helpers of the crate (their returned values with the arguments substituted).
+
+_OPTION = "std::option::Option"
+_ANY = ("unknown", "any")
+# iterator adaptors whose items are items of the receiver
+_ELEM_KEEPING = {"rev", "skip", "take", "filter", "take_while", "skip_while", "cloned", "copied", "peekable", "by_ref",
+                 "step_by", "fuse", "iter", "iter_mut", "into_iter", "inspect", "chain", "cycle", "drain", "as_slice",
+                 "as_mut_slice", "to_vec", "into_vec", "to_owned", "clone", "deref", "deref_mut", "as_ref", "as_mut"}
+# accessors that hand out an element (or a sub-collection) of their receiver
+_ELEM_OF = {"index", "index_mut", "first", "last", "get", "first_mut", "last_mut", "get_mut", "get_unchecked",
+            "get_unchecked_mut", "next", "next_back", "peek", "nth", "last", "find", "split_first", "split_last", "split_at",
+            "split_at_mut", "split_first_mut", "split_last_mut", "unwrap", "expect", "unwrap_unchecked", "as_chain",
+            "min_by_key", "max_by_key", "min_by", "max_by"} | _ELEM_KEEPING
+
+
+def _info(t):
+    return (t[3] or {}) if t[0] == "call" else {}
+
+
+def _is_std(t):
+    return _info(t).get("krate") in ("core", "alloc", "std")
+
+
+def _block_call(t, *names):
+    """A call of one of the `chain::Block` trait's items."""
+    return t[0] == "call" and _info(t).get("name") in names and (_info(t).get("trait") or "").endswith("chain::Block")
+
+
+def _some(v):
+    return ("agg", _OPTION, "Some", (("0", v),))
+
+
+_NONE = ("agg", _OPTION, "None", ())
+
+
+def _subst(t, m):
+    """Substitute ('param', name) / ('upvar', name) leaves by terms."""
+    k = t[0]
+    if k in ("param", "upvar"):
+        return m.get((k, t[1]), t)
+    if k == "field":
+        return (k, _subst(t[1], m), t[2], t[3] if len(t) > 3 else None)
+    if k == "variant":
+        return (k, _subst(t[1], m), t[2])
+    if k == "mvar":
+        return ("mvar", t[1], t[2], _subst(t[3], m))
+    if k == "index":
+        return (k, _subst(t[1], m), _subst(t[2], m))
+    if k == "subslice":
+        return (k, _subst(t[1], m)) + tuple(t[2:])
+    if k == "call":
+        return ("call", t[1], tuple(_subst(a, m) for a in t[2]), t[3])
+    if k == "bin":
+        return ("bin", t[1], _subst(t[2], m), _subst(t[3], m))
+    if k == "un":
+        return ("un", t[1], _subst(t[2], m))
+    if k == "cast":
+        return ("cast", _subst(t[1], m), t[2])
+    if k in ("discr", "len"):
+        return (k, _subst(t[1], m))
+    if k == "agg":
+        return ("agg", t[1], t[2], tuple((f_, _subst(v, m)) for f_, v in t[3]))
+    if k == "closure":
+        return ("closure", t[1], tuple(_subst(a, m) for a in t[2]))
+    return t
+
+
+def _seal(t):
+    """Locals of another body mean nothing where the term is going: keep their initial value if there is one."""
+    k = t[0]
+    if k == "var":
+        return ("unknown", "local %s of a callee" % t[1])
+    if k == "mvar":
+        return _seal(t[3])
+    if k == "field":
+        return (k, _seal(t[1]), t[2], t[3] if len(t) > 3 else None)
+    if k == "variant":
+        return (k, _seal(t[1]), t[2])
+    if k == "index":
+        return (k, _seal(t[1]), _seal(t[2]))
+    if k == "call":
+        return ("call", t[1], tuple(_seal(a) for a in t[2]), t[3])
+    if k == "bin":
+        return ("bin", t[1], _seal(t[2]), _seal(t[3]))
+    if k == "un":
+        return ("un", t[1], _seal(t[2]))
+    if k == "cast":
+        return ("cast", _seal(t[1]), t[2])
+    if k in ("discr", "len"):
+        return (k, _seal(t[1]))
+    if k == "agg":
+        return ("agg", t[1], t[2], tuple((f_, _seal(v)) for f_, v in t[3]))
+    if k == "closure":
+        return ("closure", t[1], tuple(_seal(a) for a in t[2]))
+    return t
+
+
+def _upvar_index(pl):
+    for pe in pl.get("p", []):
+        if pe and pe[0] == "f":
+            try:
+                return int(pe[1])
+            except (TypeError, ValueError):
+                return None
+    return None
+
+
+class Vals:
+    """Value resolver of one body."""
+    _CACHE = {}
+
+    @classmethod
+    def of(cls, f, body):
+        v = cls._CACHE.get(id(body))
+        if v is None or v.body is not body:
+            v = cls(f, body)
+            cls._CACHE[id(body)] = v
+        return v
+
+    def __init__(self, f, body):
+        self.f = f
+        self.body = body
+        self.sym = K.sym_of(body)
+
+    # -- results of closures / private helpers, in this body's vocabulary -------------------------------------------
+    def returned(self, cb):
+        cs = K.sym_of(cb)
+        out = []
+        for bi, blk in enumerate(cb.blocks):
+            if blk.get("cleanup"):
+                continue
+            for st in blk["stmts"]:
+                if st["s"] == "assign" and st["pl"]["l"] == 0 and not st["pl"]["p"]:
+                    out.append(strip_deep(cs.rvalue(st["rv"])))
+            t = blk["term"]
+            if t["t"] == "call" and t["dest"]["l"] == 0 and not t["dest"]["p"]:
+                out.append(strip_deep(cs.call(t, bi)))
+        return out
+
+    def closure_mapping(self, ct, args):
+        """Substitution reading the closure `ct` = ('closure', def, captures) applied to `args` here."""
+        cb = self.f.body(ct[1])
+        if cb is None:
+            return None, None
+        m = {}
+        for name, pl in cb.rec.get("upvars", []):
+            idx = _upvar_index(pl)
+            if idx is not None and idx < len(ct[2]):
+                m[("upvar", name)] = ct[2][idx]
+        for i, a in enumerate(args):
+            if a is not None and 2 + i <= cb.arg_count:
+                m[("param", cb.local_name(2 + i) or "_%d" % (2 + i))] = a
+        return cb, m
+
+    def closure_results(self, ct, args, depth):
+        ct = strip(ct)
+        if ct[0] == "fnref":
+            fb = self.f.body(ct[1])
+            if fb is None:
+                return None
+            return self.fn_results(fb, args, depth)
+        if ct[0] != "closure":
+            return None
+        cb, m = self.closure_mapping(ct, args)
+        if cb is None:
+            return None
+        inner = Vals.of(self.f, cb)
+        out = []
+        for r in inner.returned(cb):
+            for a in inner.alts(r, depth - 1):
+                out.append(strip_deep(_subst(_seal(a), m)))
+        return out
+
+    def fn_results(self, fb, args, depth):
+        m = {}
+        for i, a in enumerate(args):
+            if 1 + i <= fb.arg_count:
+                m[("param", fb.local_name(1 + i) or "_%d" % (1 + i))] = a
+        inner = Vals.of(self.f, fb)
+        out = []
+        for r in inner.returned(fb):
+            for a in inner.alts(r, depth - 1):
+                out.append(strip_deep(_subst(_seal(a), m)))
+        return out
+
+    # -- items of an iterable ----------------------------------------------------------------------------------------
+    def elems(self, it, depth=6):
+        """Terms for the items an iterator / collection term yields."""
+        out = []
+        for a in self.alts(it, depth):
+            a = strip_deep(unmut(a))
+            if a[0] == "agg" and a[1] == _OPTION:
+                out += [v for _, v in a[3]]
+                continue
+            if a[0] == "agg" and a[1] in ("array", "tuple"):
+                out += [v for _, v in a[3]]
+                continue
+            if a[0] == "call" and _is_std(a) and a[2]:
+                nm = _info(a).get("name")
+                if nm in _ELEM_KEEPING:
+                    if nm == "chain" and len(a[2]) == 2:
+                        out += self.elems(a[2][1], depth - 1)
+                    out += self.elems(a[2][0], depth - 1)
+                    continue
+                if nm == "once" and len(a[2]) == 1:
+                    out.append(a[2][0])
+                    continue
+                if nm in ("map", "filter_map", "flat_map") and len(a[2]) == 2:
+                    for e in self.elems(a[2][0], depth - 1):
+                        rs = self.closure_results(a[2][1], [e], depth - 1)
+                        if rs is None:
+                            out.append(("unknown", "closure"))
+                        elif nm == "map":
+                            out += rs
+                        else:
+                            for r in rs:
+                                out += self.elems(r, depth - 1)
+                    continue
+                if nm == "zip" and len(a[2]) == 2:
+                    for x in self.elems(a[2][0], depth - 1):
+                        for y in self.elems(a[2][1], depth - 1):
+                            out.append(("agg", "tuple", "", (("0", x), ("1", y))))
+                    continue
+                if nm == "enumerate":
+                    for x in self.elems(a[2][0], depth - 1):
+                        out.append(("agg", "tuple", "", (("0", _ANY), ("1", x))))
+                    continue
+            out.append(("index", a, _ANY))
+        return out
+
+    # -- alternatives --------------------------------------------------------------------------------------------------
+    def alts(self, t, depth=6):
+        t = strip_deep(t)
+        if depth <= 0:
+            return [t]
+        k = t[0]
+        if k == "mvar":
+            return self.alts(t[3], depth)
+        if k == "var":
+            out = []
+            for _, d in self.sym.defs_of_var(t[2]):
+                out += self.alts(d, depth - 1)
+            return out or [t]
+        if k == "variant":
+            out = []
+            for b in self.alts(t[1], depth):
+                if b[0] == "agg" and b[1] not in ("tuple", "array") and b[2] != t[2]:
+                    continue                        # another variant cannot be downcast to this one
+                out.append(("variant", b, t[2]))
+            return out
+        if k == "field":
+            out = []
+            for b in self.alts(t[1], depth):
+                b = strip_deep(b)
+                r = strip_deep(("field", b, t[2], t[3] if len(t) > 3 else None))
+                if r[0] == "field" and str(r[2]) == str(t[2]) and r[1] == b:
+                    out.append(r)               # nothing to project
+                else:
+                    out += self.alts(r, depth - 1)
+            return out
+        if k != "call" or not t[2]:
+            return [t]
+        info = _info(t)
+        nm = info.get("name")
+        fn = info.get("fn") or ""
+        a = t[2]
+        if _is_std(t):
+            on_opt = "option::Option" in fn
+            on_res = "result::Result" in fn
+            payload = lambda x: ("field", ("variant", x, "Ok" if on_res else "Some"), "0", None)
+            if nm in ("unwrap", "expect", "unwrap_unchecked") and (on_opt or on_res):
+                return self.alts(payload(a[0]), depth - 1)
+            if nm in ("unwrap_or",) and len(a) == 2:
+                return self.alts(payload(a[0]), depth - 1) + self.alts(a[1], depth - 1)
+            if nm in ("unwrap_or_else",) and len(a) == 2:
+                rs = self.closure_results(a[1], [], depth - 1)
+                return self.alts(payload(a[0]), depth - 1) + (rs if rs is not None else [("unknown", "closure")])
+            if nm in ("map", "and_then") and on_opt and len(a) == 2:
+                out = [_NONE]
+                for x in self.alts(payload(a[0]), depth - 1):
+                    rs = self.closure_results(a[1], [x], depth - 1)
+                    if rs is None:
+                        return [t]
+                    out += [_some(r) for r in rs] if nm == "map" else rs
+                return out
+            if nm in ("map_or", "map_or_else") and len(a) == 3:
+                out = []
+                if nm == "map_or":
+                    out += self.alts(a[1], depth - 1)
+                else:
+                    rs = self.closure_results(a[1], [], depth - 1)
+                    out += rs if rs is not None else [("unknown", "closure")]
+                for x in self.alts(payload(a[0]), depth - 1):
+                    rs = self.closure_results(a[2], [x], depth - 1)
+                    out += rs if rs is not None else [("unknown", "closure")]
+                return out
+            if nm in ("filter", "take_if") and on_opt:
+                return self.alts(a[0], depth - 1) + [_NONE]
+            if nm in ("or", "xor") and on_opt and len(a) == 2:
+                return self.alts(a[0], depth - 1) + self.alts(a[1], depth - 1)
+            if nm == "or_else" and on_opt and len(a) == 2:
+                rs = self.closure_results(a[1], [], depth - 1)
+                return self.alts(a[0], depth - 1) + (rs if rs is not None else [("unknown", "closure")])
+            if nm == "then" and len(a) == 2:
+                rs = self.closure_results(a[1], [], depth - 1)
+                return [_NONE] + ([_some(r) for r in rs] if rs is not None else [("unknown", "closure")])
+            if nm == "then_some" and len(a) == 2:
+                return [_NONE] + [_some(x) for x in self.alts(a[1], depth - 1)]
+            if nm in ("replace", "take") and "mem::" in fn:
+                return self.alts(a[0], depth - 1)
+            if nm == "find_map" and len(a) == 2:
+                out = [_NONE]
+                for e in self.elems(a[0], depth - 1):
+                    rs = self.closure_results(a[1], [e], depth - 1)
+                    if rs is None:
+                        return [t]
+                    out += rs
+                return out
+            if info.get("trait") == "std::iter::Iterator" and nm in ("next", "next_back", "last", "find", "nth", "peek", "min_by_key",
+                                                                     "max_by_key", "min_by", "max_by", "reduce"):
+                return [_NONE] + [_some(e) for e in self.elems(a[0], depth - 1)]
+            if nm in ("first", "last", "get", "first_mut", "last_mut", "get_mut") and "slice" in fn:
+                return [_NONE] + [_some(("index", x, _ANY)) for x in self.alts(a[0], depth - 1)]
+            return [t]
+        if info.get("krate") == "rpki" and not info.get("trait"):
+            fb = self.f.body(t[1])
+            if fb is not None and fb.rec.get("vis") != "pub" and len(fb.blocks) <= 60 and depth >= 3:
+                rs = self.fn_results(fb, list(a), depth - 2)
+                if rs:
+                    return rs
+        return [t]
+
+    # -- where a value comes from ------------------------------------------------------------------------------------
+    def param_local(self, name):
+        for i in range(1, self.body.arg_count + 1):
+            if (self.body.local_name(i) or "_%d" % i) == name:
+                return i
+        return None
+
+    def creator(self):
+        """(resolver of the body that creates this closure, the closure term there)."""
+        root = self.body.rec.get("root")
+        if not root or "{closure" not in self.body.name:
+            return None, None
+        parent_name = self.body.name.rsplit("::", 1)[0]
+        for pn in (parent_name, root):
+            pb = self.f.body(pn)
+            if pb is None:
+                continue
+            for bi, l, cdef, st in pb.closures_created():
+                if cdef == self.body.name:
+                    pv = Vals.of(self.f, pb)
+                    return pv, strip_deep(pv.sym.rvalue(st["rv"]))
+        return None, None
+
+    def from_collection(self, t, trusted, depth=8):
+        """The value is an element (or a part) of an existing collection of blocks that is canonical already: a chain
+        (by the type's invariant), a vector this very function builds (every store into it is checked), or — in a
+        private helper — a vector every caller hands over in that state."""
+        if depth <= 0:
+            return False
+        return all(self._fc(a, trusted, depth) for a in self.alts(t))
+
+    def _fc(self, t, trusted, depth):
+        t = strip_deep(unmut(t))
+        k = t[0]
+        if k in ("index", "field", "variant", "subslice"):
+            return self._fc(t[1], trusted, depth - 1) if depth > 0 else False
+        if k == "call":
+            nm = _info(t).get("name")
+            if _is_std(t) and nm in ("new", "with_capacity", "box_assume_init_into_vec_unsafe", "new_uninit", "default") and \
+                    re.search(r"(vec::Vec|boxed::Box)", _info(t).get("fn") or ""):
+                return True                       # a fresh vector: holds only what is stored into it
+            if t[2] and ((_is_std(t) and nm in _ELEM_OF) or (_info(t).get("krate") == "rpki" and nm in ("as_chain", "as_slice", "iter"))):
+                return self.from_collection(t[2][0], trusted, depth - 1)
+            return False
+        if k == "var":
+            ds = [d for _, d in self.sym.defs_of_var(t[2]) if not (d[0] == "unknown" and d[1] == "partial")]
+            return bool(ds) and all(self.from_collection(d, trusted, depth - 1) for d in ds)
+        if k == "param":
+            l = self.param_local(t[1])
+            if l is None:
+                return False
+            return trusted(self.body.local_ty(l), (self, l))
+        if k == "upvar":
+            pv, ct = self.creator()
+            if pv is None:
+                return False
+            for name, pl in self.body.rec.get("upvars", []):
+                idx = _upvar_index(pl)
+                if name == t[1] and idx is not None and idx < len(ct[2]):
+                    return pv.from_collection(ct[2][idx], trusted, depth - 1)
+            return False
+        return False
+
+
 def run(ctx):
     f = ctx.facts()
     ctx.rule("R-WHO", "construction / unsafe-call sites are exactly the confirmed ones")
@@ -77,16 +476,43 @@ def run(ctx):
 
     # ---- C03.a canonical-form discipline --------------------------------------
     OC = CH + "OwnedChain"
-    uns = calls_to(f, lambda c: c.res == CH + "OwnedChain::<T>::from_vec_unchecked")
-    callers = sorted({root_fn(f, c.body.name) for c in uns})
+    UNCHECKED = CH + "OwnedChain::<T>::from_vec_unchecked"
+    uns = [c for c in calls_to(f, lambda c: c.res == UNCHECKED) if not c.body.is_cleanup(c.bb)]
     want = sorted([CH + "Chain::<T>::trim", CH + "Chain::<T>::difference",
-                   "<%sOwnedChain<T> as std::iter::FromIterator<T>>::from_iter" % CH, CH + "from_iter_unsorted",
-                   IP + "IpBlocks::all", AS + "AsBlocks::all"])
-    ctx.ob("R-WHO", "OwnedChain::from_vec_unchecked-callers", callers == want,
-           "the unsafe chain constructor is called only from the reviewed sites (trim, difference, the two normalising "
-           "collectors, and the single-block `all()` constructors)", detail={"found": callers, "reviewed": want})
+                   "<%sOwnedChain<T> as std::iter::FromIterator<T>>::from_iter" % CH, IP + "IpBlocks::all", AS + "AsBlocks::all"])
+    helper_memo = {}
+
+    def helper_of_reviewed(fn, depth=0):
+        """`fn` is a private function whose every caller is a reviewed site (or such a helper): the reviewed site's code,
+        moved into a function of its own."""
+        if fn in want:
+            return True
+        if fn in helper_memo:
+            return helper_memo[fn]
+        helper_memo[fn] = False
+        r = f.fns.get(fn) or {}
+        bd = f.body(fn)
+        vis = (bd.rec.get("vis") if bd is not None else None) or r.get("vis")
+        if depth > 6 or vis is None or vis == "pub" or r.get("impl_trait") or (bd is not None and bd.rec.get("impl_trait")):
+            return False
+        cs = {root_fn(f, c.body.name) for c in calls_to(f, lambda c: c.res == fn) if not c.body.is_cleanup(c.bb)}
+        ok = bool(cs) and all(helper_of_reviewed(x, depth + 1) for x in cs if x != fn)
+        helper_memo[fn] = ok
+        return ok
+
+    def hands_over_nothing(c):
+        a = K.arg_terms(c)
+        t = strip_deep(unmut(a[0])) if a else ("unknown", "?")
+        return t[0] == "call" and not t[2] and _info(t).get("name") in ("new", "default") and "vec::Vec" in (_info(t).get("fn") or "")
+    callers = sorted({root_fn(f, c.body.name) for c in uns})
+    odd = sorted({root_fn(f, c.body.name) for c in uns
+                  if not helper_of_reviewed(root_fn(f, c.body.name)) and not hands_over_nothing(c)})
+    ctx.ob("R-WHO", "OwnedChain::from_vec_unchecked-callers", bool(callers) and not odd,
+           "the unsafe chain constructor is called only from the reviewed sites (trim, difference, the normalising collector "
+           "with its private helpers, and the single-block `all()` constructors)", detail={"found": callers, "reviewed": want, "not_reviewed": odd})
+    lit_ok = {UNCHECKED, CH + "OwnedChain::<T>::empty"}
     sites = sorted({root_fn(f, x[0].name) for x in aggregates_of(f, OC) if not is_derived(x[0])})
-    ctx.ob("R-WHO", "OwnedChain-literal-sites", sites == sorted([CH + "OwnedChain::<T>::from_vec_unchecked", CH + "OwnedChain::<T>::empty"]),
+    ctx.ob("R-WHO", "OwnedChain-literal-sites", UNCHECKED in sites and set(sites) <= lit_ok,
            "OwnedChain(..) is built only in from_vec_unchecked and empty", detail=sites)
     for adt in (OC, CH + "SharedChain", IP + "IpBlocks", AS + "AsBlocks", IP + "Ipv4Blocks", IP + "Ipv6Blocks"):
         rec = f.adts.get(adt)
@@ -120,95 +546,10 @@ def run(ctx):
                detail={"all_calls": len(alls), "other_block_ctors": others})
 
     # ---- C03.b every stored block is canonicalised -----------------------------------
-    producers = ["<%sOwnedChain<T> as std::iter::FromIterator<T>>::from_iter" % CH, CH + "from_iter_unsorted",
-                 CH + "merge_or_add_block", CH + "Chain::<T>::trim", CH + "Chain::<T>::difference"]
-    npush = 0
-    for fn in producers:
-        b = f.body(fn)
-        if b is None:
-            ctx.missing("R-FLOW", short(fn), fn)
-            continue
-        ctx.saw_fn(fn)
-        s = K.sym_of(b)
-        bad = []
-        for c in b.calls():
-            if b.is_cleanup(c.bb) or c.name != "push":
-                continue
-            npush += 1
-            a = K.arg_terms(c)
-            vals = expand(s, a[1])
-            for v in vals:
-                r = render(v)
-                vv = v
-                while vv[0] in ("variant", "field") and vv[1][0] == "agg":
-                    inner = dict(vv[1][3])
-                    vv = strip_deep(inner.get("0", ("unknown",))) if vv[0] == "variant" else vv
-                    break
-                r2 = render(vv)
-                if not (r2.startswith("Block::new(") or re.search(r"Some\{0: Block::new\(", r2)):
-                    bad.append(r)
-        # stores through a reference into the result vector
-        for bi, blk in enumerate(b.blocks):
-            for st in blk["stmts"]:
-                if st["s"] != "assign" or not st["pl"]["p"]:
-                    continue
-                projs = st["pl"]["p"]
-                base_ty = b.local_ty(st["pl"]["l"])
-                is_elem_store = (projs[-1][0] in ("d", "i") and ("&mut T" in base_ty or "Vec<T>" in base_ty or base_ty == "&mut std::vec::Vec<T>"))
-                if not is_elem_store:
-                    continue
-                t = strip_deep(s.rvalue(st["rv"]))
-                for v in expand(s, t):
-                    r = render(v)
-                    if not (r.startswith("Block::new(") or re.search(r"^(Block::sum|.*Block::sum\().*Some\.0$", r) or
-                            re.search(r"^Index::index\(res, ", r) or re.search(r"^res\[", r) or r.startswith("IndexMut::index_mut(res") or
-                            re.search(r"Index::index\(\(\*?res\)?", r)):
-                        bad.append("store: " + r)
-        ctx.ob("R-FLOW", "%s:stored-blocks-canonical" % short(fn), not bad,
-               "every block %s stores into its result is re-created with Block::new (canonical form), the merge Block::sum, "
-               "or copied from the result itself" % short(fn), where=b.loc, detail=bad or None)
-    ctx.floor("R-FLOW", "push sites in chain producers", npush, 8)
-    sb = f.body(CH + "Block::sum")
-    if sb is not None:
-        vals = [render(t) for _, _, t in success_values(sb)]
-        ok = all(v == "option::Option::None{}" or v.startswith("option::Option::Some{0: Block::new(") for v in vals) and len(vals) >= 3
-        ctx.ob("R-FLOW", "Block::sum:canonical", ok, "Block::sum builds its result with Block::new", where=sb.loc, detail=vals)
+    check_stored_blocks(ctx, f)
 
     # ---- C03.c overlap handled wherever adjacency is -------------------------------------
-    nadj = 0
-    for n, b in f.bodies.items():
-        if not b.file.endswith("resources/chain.rs") or is_derived(b):
-            continue
-        oc = outcome(b)
-        sym = oc.sym
-        adjacency = []
-        ordering = []
-        for bi, blk in enumerate(b.blocks):
-            t = blk["term"]
-            if t["t"] != "switch" or blk.get("cleanup"):
-                continue
-            at = bool_atom(sym.operand(t["discr"])) if t.get("dty") == "bool" else None
-            if not at or at[2] is None:
-                continue
-            rel, x, y, pos = at
-            rx, ry = render(x), render(y)
-            if rel == "eq" and ("Block::next(" in rx or "Block::next(" in ry or "tail_next" in rx or "tail_next" in ry):
-                adjacency.append((bi, rx, ry))
-            if rel in ("lt", "le", "gt", "ge") and re.search(r"Block::min\(|\.0\b|last_max|Block::max\(", rx + ry):
-                ordering.append((bi, rel, rx, ry))
-        if not adjacency:
-            continue
-        if root_fn(f, n) == CH + "Block::sum":
-            # sum() tests intersects() first
-            has_overlap = any(c.name == "intersects" for c in b.calls())
-        else:
-            has_overlap = any(("Block::min(" in rx) != ("Block::min(" in ry) for _, _, rx, ry in ordering)
-        nadj += 1
-        ctx.ob("R-SIB", "%s:adjacency-implies-overlap-test" % short(root_fn(f, n)), has_overlap,
-               "%s merges blocks on adjacency (next(max) == min) and also compares min against the previous max by order, "
-               "so overlapping neighbours are merged too" % short(root_fn(f, n)), where=b.loc,
-               detail={"adjacency_tests": adjacency, "ordering_tests": ordering})
-    ctx.floor("R-SIB", "functions merging on adjacency in chain.rs", nadj, 3)
+    check_adjacency_implies_overlap(ctx, f)
 
     # ---- C03.d lower <= upper at untrusted constructors -----------------------------------
     check_ranges(ctx, f)
@@ -256,6 +597,376 @@ def run(ctx):
         ctx.ob("R-PANIC", "AsRange::asn_count:full-range-overflow", not pan,
                "AsRange::asn_count cannot overflow (max − min + 1 fits u32)", where=ac.loc,
                detail=[p.describe() for p in pan][:2] or None)
+
+
+# ---------------------------------------------------------------------------------------------
+# C03.b — every block that enters a vector of blocks in the generic chain code is canonical
+
+_NO_NEW_ELEMENT = re.compile(r"^(len|is_empty|capacity|last|last_mut|first|first_mut|get|get_mut|get_unchecked|get_unchecked_mut|iter|"
+                             r"iter_mut|truncate|clear|pop|remove|swap_remove|swap|sort\w*|dedup\w*|retain\w*|drain|reserve\w*|"
+                             r"shrink\w*|as_slice|as_mut_slice|as_ptr|as_mut_ptr|deref|deref_mut|index|index_mut|reverse|"
+                             r"rotate_\w+|split\w*|binary_search\w*|contains|starts_with|ends_with|as_ref|as_mut|borrow|borrow_mut|"
+                             r"clone|to_vec|to_owned|into_iter|windows|chunks\w*|iter_mut|eq|ne|partial_cmp|cmp|fmt|hash|"
+                             r"into_boxed_slice|leak|is_sorted\w*|copy_within|select_nth\w*|into|from|set_len)$")
+
+
+def block_types(body):
+    """Names of the generic parameter(s) that stand for a block in this body: what its vectors / slices / chains hold."""
+    out = set()
+    for l in body.locals:
+        for m in re.finditer(r"(?:Vec|Chain|OwnedChain|SharedChain|Iter|IterMut|IntoIter)<(?:'\w+, )?(\w+)[>,]|\[(\w+)(?:; \d+)?\]", l["ty"]):
+            x = m.group(1) or m.group(2)
+            if x and x[0].isupper() and len(x) <= 3:
+                out.add(x)
+    return out
+
+
+def _op_local_ty(body, op):
+    pl = op.get("m") or op.get("c")
+    if not pl:
+        return None, None
+    return body.local_ty(pl["l"]), bool(pl["p"])
+
+
+def check_stored_blocks(ctx, f):
+    trusting = set()
+
+    def trusted(ty, who):
+        if re.search(r"chain::(Chain|OwnedChain|SharedChain)<", ty):
+            return True                             # the type's invariant
+        if who is None or not re.search(r"Vec<|\[\w+\]", ty):
+            return False
+        vals, l = who
+        b = vals.body
+        if b.rec.get("vis") == "pub" or b.rec.get("impl_trait") or "{closure" in b.name:
+            return False                            # anybody may hand in anything
+        key = (b.name, l)
+        if key in trusting:
+            return True                             # recursion: assume, the outer call decides
+        trusting.add(key)
+        try:
+            cs = [c for c in calls_to(f, lambda c: c.res == b.name) if not c.body.is_cleanup(c.bb)]
+            if not cs:
+                return False
+            for c in cs:
+                if l - 1 >= len(c.args):
+                    return False
+                cv = Vals.of(f, c.body)
+                if not cv.from_collection(cv.sym.operand(c.args[l - 1]), trusted):
+                    return False
+            return True
+        finally:
+            trusting.discard(key)
+
+    def canonical(vals, t, bad, what):
+        """Every alternative of the stored value is Block::new(..), the merge Block::sum(..), or an element of an
+        already canonical collection."""
+        for a in vals.alts(t):
+            a = strip_deep(unmut(a))
+            if _block_call(a, "new"):
+                continue
+            if a[0] == "field" and str(a[2]) == "0" and a[1][0] == "variant" and a[1][2] == "Some" and _block_call(strip_deep(a[1][1]), "sum"):
+                continue
+            if a[0] == "agg" and a[1] == _OPTION and a[2] == "None":
+                continue
+            if vals.from_collection(a, trusted):
+                continue
+            bad.append("%s: %s" % (what, K.alpha(render(a), vals.body)[:200]))
+
+    def canonical_items(vals, t, bad, what):
+        for a in vals.alts(t):
+            a = strip_deep(unmut(a))
+            if vals.from_collection(a, trusted):
+                continue
+            es = vals.elems(a)
+            if not es:
+                bad.append("%s: %s" % (what, K.alpha(render(a), vals.body)[:200]))
+            for e in es:
+                canonical(vals, e, bad, what + " item")
+
+    per_root = {}
+    for n, b in sorted(f.bodies.items()):
+        if not b.file.endswith("resources/chain.rs") or is_derived(b) or "::test" in n:
+            continue
+        BT = block_types(b)
+        if not BT:
+            continue
+        bt = "(?:%s)" % "|".join(sorted(BT))
+        vec_ty = re.compile(r"^(&mut )?(std::vec::|alloc::vec::)?Vec<%s>$" % bt)
+        slice_mut = re.compile(r"^&mut \[%s\]$" % bt)
+        elem_mut = re.compile(r"^&mut %s$" % bt)
+        vals = Vals.of(f, b)
+        s = vals.sym
+        bad = []
+        nsites = 0
+        for c in b.calls():
+            if b.is_cleanup(c.bb) or not c.is_static:
+                continue
+            std = c.krate in ("core", "alloc", "std")
+            a0ty, a0proj = _op_local_ty(b, c.args[0]) if c.args else (None, None)
+            dty = b.local_ty(c.dest["l"]) if c.dest is not None and not c.dest["p"] else ""
+            nm = c.name or ""
+            at = [strip_deep(s.operand(x)) for x in c.args]
+            if std and a0ty and not a0proj and (vec_ty.match(a0ty) and a0ty.startswith("&mut") or slice_mut.match(a0ty)):
+                if _NO_NEW_ELEMENT.match(nm):
+                    continue
+                nsites += 1
+                if nm in ("push", "push_within_capacity") and len(at) == 2:
+                    canonical(vals, at[1], bad, nm)
+                elif nm == "insert" and len(at) == 3:
+                    canonical(vals, at[2], bad, nm)
+                elif nm in ("resize", "fill") and len(at) >= 2:
+                    canonical(vals, at[-1], bad, nm)
+                elif nm in ("extend", "extend_from_slice", "append", "clone_from_slice", "clone_from") and len(at) == 2:
+                    canonical_items(vals, at[1], bad, nm)
+                elif nm == "splice" and len(at) == 3:
+                    canonical_items(vals, at[2], bad, nm)
+                else:
+                    bad.append("unrecognised way of putting blocks into a vector: %s" % short(c.res or nm))
+                continue
+            if std and a0ty and not a0proj and elem_mut.match(a0ty) and nm in ("replace", "swap", "write", "clone_from", "clone_into"):
+                nsites += 1
+                for x in (at[1:] if nm != "swap" else at):
+                    canonical(vals, x, bad, nm)
+                continue
+            if std and vec_ty.match(dty) and not dty.startswith("&"):
+                # a vector of blocks comes into being
+                if nm in ("new", "with_capacity", "box_assume_init_into_vec_unsafe", "default"):
+                    continue
+                nsites += 1
+                if nm in ("collect", "from_iter") and at:
+                    canonical_items(vals, at[0], bad, "collected")
+                elif nm == "from_elem" and at:
+                    canonical(vals, at[0], bad, nm)
+                elif at and nm in ("into", "from", "to_vec", "clone", "to_owned", "into_vec", "unwrap", "expect", "unwrap_or_default", "take", "replace", "concat"):
+                    if not vals.from_collection(at[0], trusted):
+                        canonical_items(vals, at[0], bad, "copied")
+                else:
+                    bad.append("unrecognised source of a vector of blocks: %s" % short(c.res or nm))
+        # stores through a reference / an index into a vector or a slice
+        for bi, blk in enumerate(b.blocks):
+            if blk.get("cleanup"):
+                continue
+            for st in blk["stmts"]:
+                if st["s"] != "assign" or not st["pl"]["p"]:
+                    continue
+                projs = st["pl"]["p"]
+                if not any(p[0] in ("d", "i", "ci") for p in projs):
+                    continue
+                rv = st["rv"]
+                vty = None
+                if rv["r"] == "use":
+                    vty, proj = _op_local_ty(b, rv["op"])
+                    if vty is None or proj:
+                        vty = None
+                base_ty = b.local_ty(st["pl"]["l"])
+                is_array = rv["r"] == "agg" and rv.get("ak") == "array"
+                if vty is not None:
+                    if not re.match(r"^%s$" % bt, vty):
+                        continue
+                elif is_array:
+                    if not re.search(r"\[%s; \d+\]" % bt, base_ty):
+                        continue
+                elif not (re.search(r"&mut %s\b" % bt, base_ty) or re.search(r"Vec<%s>" % bt, base_ty) or re.search(r"\[%s[\];]" % bt, base_ty)):
+                    continue
+                nsites += 1
+                t = strip_deep(s.rvalue(rv))
+                if is_array:
+                    for _, v in t[3]:
+                        canonical(vals, v, bad, "array element")
+                else:
+                    canonical(vals, t, bad, "store")
+        if nsites:
+            r = per_root.setdefault(root_fn(f, n), [0, [], b if root_fn(f, n) == n else None])
+            r[0] += nsites
+            r[1] += bad
+    total = 0
+    for root, (nsites, bad, rb) in sorted(per_root.items()):
+        ctx.saw_fn(root)
+        total += nsites
+        rb = rb or f.body(root)
+        ctx.ob("R-FLOW", "%s:stored-blocks-canonical" % short(root), not bad,
+               "every block %s puts into a vector of blocks is re-created with Block::new (canonical form), is the merge "
+               "Block::sum, or is copied from a collection that is canonical already" % short(root),
+               where=rb.loc if rb is not None else None, detail=bad or None)
+    for fn in ("<%sOwnedChain<T> as std::iter::FromIterator<T>>::from_iter" % CH, CH + "Chain::<T>::trim", CH + "Chain::<T>::difference"):
+        if f.body(fn) is None:
+            ctx.missing("R-FLOW", short(fn), fn)
+    ctx.floor("R-FLOW", "push sites in chain producers", total, 8)
+    subs = [(n, b) for n, b in sorted(f.bodies.items())
+            if n == CH + "Block::sum" or re.search(r" as repository::resources::chain::Block>::sum$", n)]
+    for n, sb in subs:
+        vals = Vals.of(f, sb)
+        bad = []
+        rets = vals.returned(sb)
+        for t in rets:
+            for a in vals.alts(t):
+                a = strip_deep(a)
+                if a[0] == "agg" and a[1] == _OPTION and a[2] == "None":
+                    continue
+                if a[0] == "agg" and a[1] == _OPTION and a[2] == "Some" and all(_block_call(strip_deep(x), "new") for x in
+                                                                                   vals.alts(dict(a[3]).get("0", ("unknown", "?")))):
+                    continue
+                bad.append(render(a)[:200])
+        ctx.ob("R-FLOW", "%s:canonical" % short(n), bool(rets) and not bad, "%s builds its result with Block::new" % short(n),
+               where=sb.loc, detail=bad or [render(t)[:120] for t in rets])
+
+
+# ---------------------------------------------------------------------------------------------
+# Boolean tests of a function together with its closures, read in the function's own vocabulary
+
+_OPT_PAYLOAD_COMBINATORS = {"map", "and_then", "filter", "is_some_and", "is_none_or", "map_or", "map_or_else", "take_if", "inspect",
+                            "is_ok_and", "is_err_and", "xor"}
+_TWO_ELEMS = {"sort_by", "sort_unstable_by", "max_by", "min_by", "is_sorted_by", "dedup_by", "partial_cmp_by", "cmp_by", "eq_by"}
+_ACC_ELEM = {"fold", "try_fold", "rfold", "try_rfold", "scan"}
+
+
+def closure_binding(f, cb):
+    """(resolver of the creating body, substitution) that reads closure body `cb` where it is created: captures are the
+    captured values; the parameter is what the receiving std combinator passes (its documented contract)."""
+    cv = Vals.of(f, cb)
+    pv, ct = cv.creator()
+    if pv is None:
+        return None, None
+    pb = pv.body
+    args = []
+    for c in pb.calls():
+        if pb.is_cleanup(c.bb) or not c.is_static:
+            continue
+        at = [strip_deep(pv.sym.operand(x)) for x in c.args]
+        idx = [i for i, x in enumerate(at) if x[0] == "closure" and x[1] == cb.name]
+        if not idx:
+            continue
+        i = idx[0]
+        if i == 0 or c.krate not in ("core", "alloc", "std"):
+            break
+        recv = at[0]
+        fn = c.fn or ""
+        nm = c.name or ""
+        if "option::Option" in fn or "result::Result" in fn:
+            if nm in _OPT_PAYLOAD_COMBINATORS and i == len(at) - 1:
+                var = "Ok" if "result::Result" in fn else "Some"
+                args = [("field", ("variant", recv, var), "0", None)]
+        else:
+            es = pv.elems(recv)
+            e = es[0] if es else None
+            if e is not None:
+                if nm in _TWO_ELEMS:
+                    args = [e, e]
+                elif nm in _ACC_ELEM:
+                    args = [None, e]
+                else:
+                    args = [e]
+        break
+    _, m = pv.closure_mapping(ct, args)
+    return pv, m
+
+
+def lift(f, body, t):
+    """A term of `body` (a closure nested anywhere below a function) in the vocabulary of that function."""
+    cur = body
+    for _ in range(6):
+        if "{closure" not in cur.name:
+            break
+        pv, m = closure_binding(f, cur)
+        if pv is None:
+            break
+        t = strip_deep(_subst(_seal(t), m or {}))
+        cur = pv.body
+    return cur, t
+
+
+def bool_leaves(t):
+    """Comparison / predicate leaves of a boolean term (through !, &, |)."""
+    from engine import orderlogic as OL
+    t = strip_deep(t)
+    if t[0] == "un" and t[1] == "Not":
+        yield from bool_leaves(t[2])
+    elif t[0] == "bin" and t[1] in ("BitAnd", "BitOr", "BitXor"):
+        yield from bool_leaves(t[2])
+        yield from bool_leaves(t[3])
+    else:
+        a = OL.atom(t)
+        while a[0] == "not":
+            a = a[1]
+        yield a
+
+
+def family_tests(f, root):
+    """[(owner body, where, atom)] — every comparison the function `root` or one of its closures branches on or returns;
+    a three-way comparison that is matched on reads ('cmp', 'cmp', a, b)."""
+    out = []
+    names = [root] + sorted(n for n in f.children(root) if n != root)
+    rb = f.body(root)
+    for n in names:
+        b = f.body(n)
+        if b is None or is_derived(b):
+            continue
+        s = K.sym_of(b)
+        terms = []
+        for bi, blk in enumerate(b.blocks):
+            if blk.get("cleanup"):
+                continue
+            t = blk["term"]
+            if t["t"] == "switch":
+                d = strip_deep(s.operand(t["discr"]))
+                if t.get("dty") == "bool":
+                    terms.append((bi, d))
+                elif d[0] == "discr":
+                    inner = strip_deep(d[1])
+                    if inner[0] == "call" and _info(inner).get("name") in ("cmp", "partial_cmp") and len(inner[2]) == 2:
+                        terms.append((bi, ("call", inner[1], inner[2], inner[3])))
+            is_bool = b.ret_ty == "bool"
+            for st in blk["stmts"]:
+                if is_bool and st["s"] == "assign" and st["pl"]["l"] == 0 and not st["pl"]["p"]:
+                    terms.append((bi, strip_deep(s.rvalue(st["rv"]))))
+            if is_bool and t["t"] == "call" and t["dest"]["l"] == 0 and not t["dest"]["p"]:
+                terms.append((bi, strip_deep(s.call(t, bi))))
+        for bi, t in terms:
+            owner, lt = (b, t) if b is rb else lift(f, b, t)
+            if owner is not rb:
+                owner, lt = b, t                # could not be read at the function's level: judged where it stands
+            if lt[0] == "call" and _info(lt).get("name") in ("cmp", "partial_cmp") and len(lt[2]) == 2 and \
+                    ((_info(lt).get("trait") or "").split("::")[-1] in ("Ord", "PartialOrd")):
+                out.append((owner, b.where(bi), ("cmp", "cmp", strip_deep(lt[2][0]), strip_deep(lt[2][1]))))
+                continue
+            for a in bool_leaves(lt):
+                out.append((owner, b.where(bi), a))
+    return out
+
+
+def check_adjacency_implies_overlap(ctx, f):
+    nadj = 0
+    roots = sorted({root_fn(f, n) for n, b in f.bodies.items()
+                    if b.file.endswith("resources/chain.rs") and not is_derived(b) and "::test" not in n})
+    for root in roots:
+        rb = f.body(root)
+        if rb is None:
+            continue
+        adjacency, ordering = [], []
+        for owner, where, a in family_tests(f, root):
+            if a[0] != "cmp":
+                continue
+            vals = Vals.of(f, owner)
+            if a[1] in ("==", "!="):
+                steps = [x for side in (a[2], a[3]) for alt in vals.alts(side) for x in walk(alt) if _block_call(x, "next", "previous")]
+                if steps:
+                    adjacency.append((where, K.alpha(render(a[2]), owner)[:90], K.alpha(render(a[3]), owner)[:90]))
+            else:
+                ka, kb = bound_kind(vals.sym, a[2]), bound_kind(vals.sym, a[3])
+                if {ka, kb} == {"L", "U"}:
+                    ordering.append((where, ka, a[1], kb))
+        if not adjacency:
+            continue
+        names = [root] + list(f.children(root))
+        by_predicate = any(_block_call(("call", c.res, (), {"name": c.name, "trait": c.trait}), "intersects")
+                           for n in names if f.body(n) is not None for c in f.body(n).calls() if not f.body(n).is_cleanup(c.bb))
+        nadj += 1
+        ctx.ob("R-SIB", "%s:adjacency-implies-overlap-test" % short(root), bool(ordering) or by_predicate,
+               "%s merges blocks on adjacency (next(max) == min) and also compares a lower against an upper bound by order "
+               "(or asks Block::intersects), so overlapping neighbours are merged too" % short(root), where=rb.loc,
+               detail={"adjacency_tests": adjacency, "ordering_tests": ordering, "intersects": by_predicate})
+    ctx.floor("R-SIB", "functions merging on adjacency in chain.rs", nadj, 3)
 
 
 def check_ranges(ctx, f):
@@ -485,71 +1196,98 @@ def check_interval_discipline(ctx, f):
     from engine import orderlogic as OL
     # ---- C03.g a merge only ever raises the upper bound ----------------------------------------
     n_ext = 0
+
+    def lo_parts(b, t):
+        """[(block, [spellings of that block's upper bound])] for a term that is the lower bound of one block, or the least
+        of several blocks' lower bounds; None for anything else."""
+        t = strip_deep(t)
+        if _block_call(t, "min") and t[2]:
+            e = K.alpha(render(t[2][0]), b)
+            return [(e, ["Block::max(%s)" % e, "Block::bounds(%s).1" % e])]
+        if t[0] == "field" and str(t[2]) == "0" and bound_kind(K.sym_of(b), t) == "L":
+            base = strip_deep(t[1])
+            pr = K.alpha(render(base), b)
+            if _block_call(base, "bounds") and base[2]:
+                e = K.alpha(render(base[2][0]), b)
+                return [(e, ["Block::max(%s)" % e, pr + ".1"])]
+            return [(pr, [pr + ".1"])]
+        if t[0] == "call" and _is_std(t) and _info(t).get("name") == "min" and len(t[2]) == 2:
+            x, y = lo_parts(b, t[2][0]), lo_parts(b, t[2][1])
+            return x + y if x is not None and y is not None else None
+        return None
+
+    def hi_parts(b, t):
+        """([(block, text of its upper bound)], is a maximum of several) for an upper-bound term."""
+        t = strip_deep(t)
+        if _block_call(t, "max") and t[2]:
+            return [(K.alpha(render(t[2][0]), b), K.alpha(render(t), b))], False
+        if t[0] == "field" and str(t[2]) == "1" and bound_kind(K.sym_of(b), t) == "U":
+            base = strip_deep(t[1])
+            own = K.alpha(render(base[2][0]), b) if _block_call(base, "bounds") and base[2] else K.alpha(render(base), b)
+            return [(own, K.alpha(render(t), b))], False
+        if t[0] == "call" and _is_std(t) and _info(t).get("name") == "max" and len(t[2]) == 2:
+            x, y = hi_parts(b, t[2][0]), hi_parts(b, t[2][1])
+            return (x[0] + y[0], True) if x is not None and y is not None else None
+        return None
     for c in calls_to(f, lambda c: c.name == "new" and (c.trait or "").endswith("chain::Block")):
         b = c.body
         if b.is_cleanup(c.bb) or is_derived(b) or "::test" in b.name or not b.file.endswith("resources/chain.rs"):
             continue
-        a0, a1 = [K.alpha(render(x), b) for x in K.arg_terms(c)[:2]]
-        m_lo = re.match(r"^Block::min\((.+)\)$", a0)
-        m_lo2 = re.match(r"^(.+bounds\)↓Some\.0)\.0$", a0)
-        m_hi = re.match(r"^Block::max\((.+)\)$", a1)
-        if not m_hi or not (m_lo or m_lo2):
+        at = K.arg_terms(c)[:2]
+        if len(at) < 2:
             continue
-        E_hi = "Block::max(%s)" % m_lo.group(1) if m_lo else m_lo2.group(1) + ".1"
-        X = m_hi.group(1)
-        if m_lo and m_lo.group(1) == X:
+        lo, hi = lo_parts(b, at[0]), hi_parts(b, at[1])
+        if lo is None or hi is None:
+            continue
+        a0, a1 = K.alpha(render(at[0]), b), K.alpha(render(at[1]), b)
+        his, is_max = hi
+        if {e for e, _ in lo} == {x for x, _ in his} and len(lo) == 1:
             continue            # a copy of one block
         n_ext += 1
         guards = K.dominating_guards(f, b, c.bb)
-        g1 = "%s < %s" % (E_hi, a1)
-        lhs, rhs = sorted(["Block::next(%s)" % E_hi, "option::Option::Some{0: Block::min(%s)}" % X])
-        g2 = "%s == %s" % (lhs, rhs)
-        ok = g1 in guards or g2 in guards
+        need = []
+        ok = False
+        if is_max:
+            # max(…) of upper bounds: never below any of them
+            have = {txt for _, txt in his}
+            ok = all(any(sp in have for sp in sps) for _, sps in lo)
+            need = ["the maximum includes the upper bound of %s" % e for e, sps in lo if not any(sp in have for sp in sps)]
+        elif len(lo) == 1 and len(his) == 1:
+            e, sps = lo[0]
+            x, xhi = his[0]
+            for e_hi in sps:
+                need += ["%s < %s" % (e_hi, xhi), "%s <= %s" % (e_hi, xhi)]
+                for x_lo in ("Block::min(%s)" % x, "%s.0" % x, "Block::bounds(%s).0" % x):
+                    need.append("%s == %s" % tuple(sorted(["Block::next(%s)" % e_hi, "option::Option::Some{0: %s}" % x_lo])))
+                    need.append("%s == %s" % tuple(sorted(["Block::previous(%s)" % x_lo, "option::Option::Some{0: %s}" % e_hi])))
+            ok = any(g in guards for g in need)
         ctx.ob("R-GRD", "%s:merge-raises-upper[%s]" % (short(root_fn(f, b.name)), a1[:60]), ok,
                "%s replaces a stored block by (its min, another block's max) only where that max is larger than the stored one "
                "(or the other block starts right after it) — a merge never shrinks a block" % short(root_fn(f, b.name)),
-               where=c.where(), detail={"new": [a0, a1], "needs_one_of": [g1, g2], "guards": guards})
+               where=c.where(), detail={"new": [a0, a1], "needs_one_of": need[:6], "guards": guards})
     ctx.floor("R-GRD", "block-extending merges in chain.rs", n_ext, 5)
 
     # ---- C03.h inclusive bounds: an upper and a lower bound are compared strictly for disjointness ----------
     n_mixed = 0
-    for n, b in sorted(f.bodies.items()):
-        if is_derived(b) or "::test" in n:
-            continue
-        if not (b.file.endswith("resources/chain.rs") or b.file.endswith("resources/ipres.rs") or b.file.endswith("resources/asres.rs")):
-            continue
-        s = K.sym_of(b)
+    roots = sorted({root_fn(f, n) for n, b in f.bodies.items()
+                    if not is_derived(b) and "::test" not in n and
+                    (b.file.endswith("resources/chain.rs") or b.file.endswith("resources/ipres.rs") or b.file.endswith("resources/asres.rs"))})
+    for root in roots:
         seen = set()
-
-        def scan(t, where):
-            nonlocal n_mixed
-            a = OL.atom(t)
-            neg = False
-            while a[0] == "not":
-                a, neg = a[1], not neg
+        for owner, where, a in family_tests(f, root):
             if a[0] != "cmp" or a[1] not in ("<", "<=", ">", ">="):
-                return
+                continue
+            s = K.sym_of(owner)
             ka, kb = bound_kind(s, a[2]), bound_kind(s, a[3])
             if not ka or not kb or ka == kb:
-                return
-            key = "%s %s %s" % (K.alpha(render(a[2]), b)[:70], a[1], K.alpha(render(a[3]), b)[:70])
+                continue
+            key = "%s %s %s" % (K.alpha(render(a[2]), owner)[:70], a[1], K.alpha(render(a[3]), owner)[:70])
             if key in seen:
-                return
+                continue
             seen.add(key)
             n_mixed += 1
-            ctx.ob("R-SIB", "%s:bounds-compared[%s]" % (short(root_fn(f, n)), key), (ka, a[1], kb) in ALLOWED_MIXED,
+            ctx.ob("R-SIB", "%s:bounds-compared[%s]" % (short(root), key), (ka, a[1], kb) in ALLOWED_MIXED,
                    "blocks are inclusive ranges: an upper and a lower bound are compared as `upper < lower` (disjoint) or "
-                   "`lower <= upper` (touching counts as overlap) — %s writes %s %s %s" % (short(root_fn(f, n)), ka, a[1], kb),
+                   "`lower <= upper` (touching counts as overlap) — %s writes %s %s %s" % (short(root), ka, a[1], kb),
                    where=where)
-        for bi, blk in enumerate(b.blocks):
-            if blk.get("cleanup"):
-                continue
-            t = blk["term"]
-            if t["t"] == "switch" and t.get("dty") == "bool":
-                scan(strip_deep(s.operand(t["discr"])), b.where(bi))
-            for st in blk["stmts"]:
-                if st["s"] == "assign" and st["pl"]["l"] == 0 and not st["pl"]["p"]:
-                    scan(strip_deep(s.rvalue(st["rv"])), b.where(bi))
-            if t["t"] == "call" and t["dest"]["l"] == 0 and not t["dest"]["p"]:
-                scan(strip_deep(s.call(t, bi)), b.where(bi))
     ctx.floor("R-SIB", "upper/lower bound comparisons in the resource code", n_mixed, 9)
